@@ -154,3 +154,38 @@ func H_C11_sr_setup_sqrt() {
 	vsym.AssertNear(o.Get1(0), eo, 1e-12, 1e-12, "step-is-calcOutflow-with-the-prescribed-constants")
 	vsym.AssertNear(st.Get1(0), es, 1e-12, 1e-12, "step-is-calcOutflow-with-the-prescribed-constants")
 }
+
+// c11srSetupEvap: as H_C11_sr_setup_sqrt with a reach surface area and arbitrary rainfall and
+// evaporation depths for the step (zero inflow bias, m = 1 or 1/2): the step storageRouting
+// performs is calcOutflow with the net evaporation RATE (evaporation - rainfall) / timestep, for
+// any timestep length in [1 s, 1 d] - so that the calcOutflow-level balance results with an
+// arbitrary rate (H_C11_sr_linear_evap, H_C11_sr_bias_evap) are results about storageRouting's
+// per-step depths, whatever the timestep.
+func c11srSetupEvap(m float64) {
+	vsym.Summarise("FindRoot")
+	inflow, lateral := vsym.Float64("inflow"), vsym.Float64("lateral")
+	prevIn, prevOut, prevS := vsym.Float64("prevInflow"), vsym.Float64("prevOutflow"), vsym.Float64("prevStorage")
+	k, dead, dt, area := vsym.Float64("k"), vsym.Float64("deadStorage"), vsym.Float64("dt"), vsym.Float64("area")
+	rain, evap := c12nn("rain"), c12nn("evap")
+	vsym.Assume(inflow >= 0 && lateral >= 0 && prevS >= 0 && prevOut >= 0 && prevIn >= 0)
+	vsym.Assume(k > 0 && k <= 1000000 && dead >= 0 && dt >= 1 && dt <= 86400 && area >= 0 && area <= 1000000)
+	o, st := rtOut(1), rtOut(1)
+	storageRouting(c12one(inflow), c12one(lateral), c12one(rain), c12one(evap), prevS, prevIn, prevOut, 0, k, m, area, dead, dt, o, st)
+	_, eo, es := calcOutflow(0, inflow, lateral, 0, 0, prevOut, prevS, (evap-rain)/dt, area, dead, dt, m, k, 0, k, 0)
+	vsym.Reach("returned")
+	vsym.AssertNear(o.Get1(0), eo, 1e-12, 1e-12, "step-is-calcOutflow-with-net-evaporation-depth-over-the-timestep")
+	vsym.AssertNear(st.Get1(0), es, 1e-12, 1e-12, "step-is-calcOutflow-with-net-evaporation-depth-over-the-timestep")
+}
+
+// H_C11_sr_setup_evap_linear: see c11srSetupEvap, m = 1.
+//vsym:prop=C11 tier=quick ints=int floats=real timeout=120
+func H_C11_sr_setup_evap_linear() { c11srSetupEvap(1) }
+
+// H_C11_sr_setup_evap_sqrt: m = 1/2.
+//vsym:prop=C11 tier=quick ints=int floats=real timeout=120
+func H_C11_sr_setup_evap_sqrt() { c11srSetupEvap(0.5) }
+
+// H_C11_sr_full_evap: one step through storageRouting with inflow bias, m = 1/2, a surface area
+// and rainfall/evaporation depths: non-negativity and the water balance (counterexample search).
+//vsym:prop=C11 tier=quick ints=int floats=real timeout=120
+func H_C11_sr_full_evap() { c11srFull(true) }
